@@ -648,6 +648,99 @@ def gen_mapfork(tree, ur):
     return MAPFORK_LEAN % (" ".join(ps), " ".join(args))
 
 
+# ---------------------------------------------------------------------------------------------------- _shapley_neighbor: the loop over validation batches
+class NeighborLoopFn(PureFn):
+    """the tail of `ShapleyImportance._shapley_neighbor`, from `n_train, n_test, n_units = …` to `return all_importances`: batch size, the loop over validation
+    batches, what is handed to the distance callable / the utility / the two scoring routines, the dispatch between them, the weight of a batch.  The validation
+    set is represented by the list of its row positions (`X_test = [0, …, n_test-1]`), so a batch is a list of positions; library calls are parameters."""
+    SHAPES = "n_train, n_test, n_units = (X_train.shape[0], X_test.shape[0], units.shape[0])"
+    BATCH = "batch_size = get_test_batch_size(n_train, n_test)"
+    DIST = "distances = distance(X_train, X_test_batch)"
+    UTIL = ("utilities = self.utility.elementwise_score(X_train=X_train, y_train=y_train, X_test=X_test_batch, y_test=y_test, metadata_train=metadata_train, "
+            "metadata_test=metadata_test)")
+    NULLS = "null_scores = self.utility.elementwise_null_score(X_train, y_train, X_test_batch, y_test)"
+    MAPFORK = "cur_importances = compute_shapley_1nn_mapfork(y_train, distances, utilities, provenance, units, world, null_scores=null_scores)"
+    ADD = ("cur_importances = compute_shapley_add(y_train, distances, utilities, provenance, units, world, num_neighbors=k, num_classes=len(label_encoder.classes_), "
+           "null_scores=null_scores)")
+
+    def special(self, s, ind):
+        u = U(s)
+        if u == self.SHAPES:
+            self.env["X_test"] = A1(INT)
+            return self.bind("X_test", "(Np.range (0 : Int) n_test (1 : Int))", A1(INT), ind) + self.bind("n_units", "(Np.len1 units)", INT, ind)
+        if u == self.BATCH:
+            self.add_extra("get_test_batch_size", "Int → Int → Int")
+            return self.bind("batch_size", "(get_test_batch_size n_train n_test)", INT, ind)
+        if u == "n_test_batch = X_test_batch.shape[0]":
+            return self.bind("n_test_batch", "(Np.len1 X_test_batch)", INT, ind)
+        if u == self.DIST:
+            self.add_extra("distance", "(List Int) → (Np.A2 α)")
+            return self.bind("distances", "(distance X_test_batch)", A2(FLT), ind)
+        if u == self.UTIL:
+            self.add_extra("elementwise_score", "(List Int) → (List Int) → (Np.A2 α)")
+            return self.bind("utilities", "(elementwise_score X_test_batch y_test)", A2(FLT), ind)
+        if u == self.NULLS:
+            self.add_extra("elementwise_null_score", "(List Int) → (List Int) → (List α)")
+            return self.bind("null_scores", "(elementwise_null_score X_test_batch y_test)", A1(FLT), ind)
+        if isinstance(s, ast.AnnAssign) and s.value is None:
+            return ""
+        return None
+
+    def expr(self, e):
+        u = U(e)
+        if u == "provenance.max_conjunctions":
+            self.add_extra("provenance_max_conjunctions", "Int")
+            return "provenance_max_conjunctions", INT
+        if isinstance(e, ast.Subscript) and isinstance(e.value, ast.Name) and self.env.get(e.value.id) == A1(INT) and isinstance(e.slice, ast.Slice) and e.slice.step is None:
+            lo = "none" if e.slice.lower is None else "(some %s)" % self.int_expr(e.slice.lower)
+            hi = "none" if e.slice.upper is None else "(some %s)" % self.int_expr(e.slice.upper)
+            return "(Np.slice1 %s %s %s)" % (e.value.id, lo, hi), A1(INT)
+        if isinstance(e, ast.Call) and npname(e) == "zeros" and len(e.args) == 1 and {k.arg: U(k.value) for k in e.keywords} == {"dtype": "float"}:
+            return "(Np.zeros1 %s)" % self.int_expr(e.args[0]), A1(FLT)
+        return PureFn.expr(self, e)
+
+    def block(self, stmts, ind, in_loop=None):
+        # the dispatch: `if <test>: cur = mapfork(…) else: cur = add(…)`
+        if stmts and isinstance(stmts[0], ast.If) and len(stmts[0].body) == 1 and len(stmts[0].orelse) == 1 \
+                and U(stmts[0].body[0]) == self.MAPFORK and U(stmts[0].orelse[0]) == self.ADD:
+            c = self.bool_expr(stmts[0].test)
+            self.add_extra("mapfork", "(Np.A2 α) → (Np.A2 α) → (List α) → (List α)")
+            self.add_extra("shapley_add", "(Np.A2 α) → (Np.A2 α) → Int → Int → (List α) → (List α)")
+            out = self.bind("cur_importances", "(if %s then (mapfork distances utilities null_scores) else (shapley_add distances utilities k num_classes null_scores))" % c, A1(FLT), ind)
+            return out + self.block(stmts[1:], ind, in_loop)
+        return PureFn.block(self, stmts, ind, in_loop)
+
+
+def npname(e):
+    f = e.func
+    return f.attr if isinstance(f, ast.Attribute) and isinstance(f.value, ast.Name) and f.value.id == "np" else None
+
+
+NB_PARAMS = [("units", A1(INT)), ("y_test", A1(INT)), ("n_train", INT), ("n_test", INT), ("k", INT), ("num_classes", INT)]
+
+
+def gen_neighbor_loop(tree):
+    node = next((n for n in ast.walk(tree) if isinstance(n, ast.FunctionDef) and n.name == "_shapley_neighbor"), None)
+    if node is None:
+        raise Untranslatable("_shapley_neighbor not found")
+    k0 = next((i for i, st in enumerate(node.body) if U(st) == NeighborLoopFn.SHAPES), None)
+    if k0 is None:
+        raise Untranslatable("the statement `%s` was not found" % NeighborLoopFn.SHAPES)
+    # what precedes the slice must not define the names the slice computes
+    for st in node.body[:k0]:
+        for n in ast.walk(st):
+            if isinstance(n, ast.Name) and isinstance(n.ctx, ast.Store) and n.id in ("batch_size", "all_importances", "n_test", "n_units"):
+                raise Untranslatable("%s is assigned before the translated slice" % n.id)
+    fn = ast.FunctionDef(name="shapley_neighbor_loop", args=node.args, body=node.body[k0:], decorator_list=[])
+    f = NeighborLoopFn(fn, NB_PARAMS, lean_name="shapley_neighbor_loop")
+    txt = f.emit("translated from `ShapleyImportance._shapley_neighbor`: from the computation of the batch size to the end (labels are already encoded; the validation set is "
+                 "the list of its row positions)")
+    for need in ("distance", "elementwise_score", "elementwise_null_score", "mapfork", "shapley_add", "get_test_batch_size"):
+        if need not in [n for n, _ in f.extra]:
+            raise Untranslatable("`%s` is never called in the batch loop" % need)
+    return txt, f
+
+
 HEADER = """import Ds.Np
 /-!
 # GenN.Neighbor — GENERATED by harness/translate_nbr.py from /repo's current source; do not edit.
@@ -667,7 +760,7 @@ def generate(repo=REPO):
     except SyntaxError as e:
         return HEADER + "end GenN\n", {"shapley.py": dict(ok=False, why="syntax: %s" % e)}
     ur = None
-    for name, job in (("compute_shapley_add", gen_shapley_add), ("get_unit_labels_and_distances", gen_unit_reduce)):
+    for name, job in (("compute_shapley_add", gen_shapley_add), ("get_unit_labels_and_distances", gen_unit_reduce), ("_shapley_neighbor.loop", gen_neighbor_loop)):
         try:
             txt, f = job(tree)
             parts.append(txt)
